@@ -6,7 +6,7 @@
 cd "$(dirname "$0")/.."
 F="${1:-}"
 OUT=logs/seeded-regress-${ISO_SLOT:-0}.txt
-: > "$OUT"
+[ -n "${SEEDED_APPEND:-}" ] || : > "$OUT"
 for d in seeded/*/; do
   n=$(basename "$d")
   case "$n" in *"$F"*) ;; *) continue;; esac
